@@ -163,7 +163,13 @@ def rule_layout_agreement(ctx, rule="LAYOUT"):
     ctx.ob(rule, "repr::heap_buffer::Header", "writers", set(writers) == set(expect), how="Header built only in allocate_ptr and realloc",
            detail="Header aggregates are built in %s (audited: %s)" % (sorted(writers), sorted(expect)))
     hadt = F.adts.get("repr::heap_buffer::Header")
-    idx = {f["name"]: i for i, f in enumerate(hadt["variants"][0]["fields"])} if hadt else {}
+    # header fields by what they hold (their names are the crate's business)
+    idx = {}
+    for i, f in enumerate(hadt["variants"][0]["fields"] if hadt else []):
+        if "atomic::Atomic" in f["ty"]:
+            idx["count"] = i
+        elif f["ty"].endswith("::Capacity"):
+            idx["capacity"] = i
     for path, lst in writers.items():
         for fs in lst:
             if "count" in idx:
@@ -187,7 +193,7 @@ def _cap_index(F):
     hadt = F.adts.get("repr::heap_buffer::Header")
     if hadt:
         for i, f in enumerate(hadt["variants"][0]["fields"]):
-            if f["name"] == "capacity":
+            if f["name"] == "capacity" or f["ty"].endswith("::Capacity"):
                 return i
     return 1
 
@@ -283,7 +289,7 @@ def rule_capacity_agreement(ctx, rule="C11-cap"):
     capidx = None
     if hadt:
         for i, f in enumerate(hadt["variants"][0]["fields"]):
-            if f["name"] == "capacity":
+            if f["name"] == "capacity" or f["ty"].endswith("::Capacity"):
                 capidx = i
     if hb and capidx is not None:
         d = describe(hb, hb.origin_local(0))
